@@ -4,6 +4,7 @@ import FitProps.CrcAlgebra
 import FitProps.C18
 import FitModel.FitFormat
 import FitProps.C02ChainLemmas
+import FitProps.C02IntegrityLemmas
 /-!
 # C02 — Successful encodes are well-formed, self-consistent FIT streams
 
@@ -227,6 +228,58 @@ example :
     let fits : List (Hdr × List WMsg) := [(⟨14, 32, 2158⟩, [⟨0, [⟨0, 0, 3, [4]⟩], []⟩]), (⟨14, 16, 2158⟩, [⟨20, [⟨253, 4, 0x86, [1, 2, 3, 4]⟩], []⟩])]
     (∀ f ∈ fits, f.1.size = 14 ∧ f.1.protoVer < 256 ∧ (∀ b ∈ encodeMsgs o (freshEnc o) f.2, b < 256)) ∧
     FitFormat.wellFormed (encodeChain o fits) = true ∧ ((FitFormat.parseStream (encodeChain o fits)).map List.length) = some 2 := by
+  decide +kernel
+
+/-! ### the library's own integrity check (model of `Decoder.CheckIntegrity`: FitModel/Integrity.lean, property C04) -/
+
+/-- THE LIBRARY'S OWN INTEGRITY CHECK ACCEPTS THE STREAM AND COUNTS THE SAME NUMBER OF SEQUENCES: for every successful
+encode of a non-empty chain — 14- and 12-byte headers mixed, every option combination — the model of
+`decoder.New(r).CheckIntegrity()` returns no error and exactly one sequence per FIT value. (For a 12-byte header this is
+the code's check agreeing with the code's encoder: both leave the header out of the file CRC, finding KF-C02-legacy-crc /
+KF-C04-1; what the integrity RULES say is `C02_integrity_accepts_as_built`.) No byte hypothesis: the check compares the
+table-form CRC-16 with the table-form CRC-16 the encoder stored. -/
+theorem C02_integrity_accepts (o : Opts) (fits : List (Hdr × List WMsg)) (hne : fits ≠ [])
+    (hall : ∀ f ∈ fits, FitOK o f.1 f.2) :
+    Integrity.checkIntegrity (encodeChain o fits) = .ok fits.length :=
+  checkIntegrity_encodeChain o fits hne hall
+
+theorem hdrBytes_bytes (h : Hdr) (ds : Nat) (hs : h.size = 12 ∨ h.size = 14) (hp : h.protoVer < 256) :
+    Fit.Crc.Bytes (hdrBytes h ds) := by
+  intro b hb
+  simp only [hdrBytes] at hb
+  split at hb
+  · simp only [Wire.le16, Wire.le32, List.mem_append, List.mem_cons, List.not_mem_nil, or_false] at hb
+    rcases hs with h1 | h1 <;> omega
+  · simp only [Wire.le16, Wire.le32, List.mem_append, List.mem_cons, List.not_mem_nil, or_false] at hb
+    rcases hs with h1 | h1 <;> omega
+
+/-- a successful encode of a chain is a byte stream when each sequence is (`C02_ByteOK`) -/
+theorem encodeChain_bytes (o : Opts) (fits : List (Hdr × List WMsg)) (hall : ∀ f ∈ fits, FitOK o f.1 f.2)
+    (hbytes : ∀ f ∈ fits, C02_ByteOK o f) : Fit.Crc.Bytes (encodeChain o fits) := by
+  intro b hb
+  obtain ⟨f, hf, hbf⟩ := List.mem_flatMap.mp hb
+  have hB : Fit.Crc.Bytes (encodeFit o f.1 f.2) := by
+    unfold encodeFit
+    refine ((hdrBytes_bytes f.1 _ (hall f hf).size (hbytes f hf).protoVer).append (hbytes f hf).recs).append ?_
+    intro x hx; simp [Wire.le16] at hx; omega
+  exact hB b hbf
+
+/-- … in terms of the integrity RULES: the declarative reference with the code's checksum rule
+(`IntegritySpec.referenceAsBuilt`: file CRC over the records only) judges every successful encode of a non-empty chain,
+12- and 14-byte headers mixed, VALID with one sequence per FIT value. -/
+theorem C02_integrity_accepts_as_built (o : Opts) (fits : List (Hdr × List WMsg)) (hne : fits ≠ [])
+    (hall : ∀ f ∈ fits, FitOK o f.1 f.2) (hbytes : ∀ f ∈ fits, C02_ByteOK o f) :
+    IntegritySpec.referenceAsBuilt (encodeChain o fits) = .ok fits.length := by
+  rw [← Fit.C04.C04_check_eq_reference_as_built _ (encodeChain_bytes o fits hall hbytes),
+    C02_integrity_accepts o fits hne hall]
+  rfl
+
+/-- non-vacuity, and the same by evaluation: a chain mixing a 14- and a 12-byte header -/
+example :
+    let o : Opts := ⟨0, false, 1⟩
+    let fits : List (Hdr × List WMsg) := [(⟨14, 32, 2158⟩, [⟨0, [⟨0, 0, 3, [4]⟩], []⟩]), (⟨12, 16, 2158⟩, [⟨20, [⟨253, 4, 0x86, [1, 2, 3, 4]⟩], []⟩])]
+    Integrity.checkIntegrity (encodeChain o fits) = .ok 2 ∧ IntegritySpec.referenceAsBuilt (encodeChain o fits) = .ok 2 ∧
+    IntegritySpec.reference (encodeChain o fits) = .bad 1 := by
   decide +kernel
 
 end Fit.C02
